@@ -234,6 +234,101 @@ def end_to_end(ctx: Ctx):
     return n, bad
 
 
+def multi_stream(ctx: Ctx):
+    """Several packets per reply stream, spread over two exchanges: whatever the segmentation, every packet the appliance sent - one right
+    behind the handshake reply included - is handed out exactly once and in order by the sends that follow."""
+    from msmart.lan import LAN
+    vloop.install_clock()
+    rng = ctx.rng
+    bad = []
+    loop = vloop.new_loop()
+    net = vloop.Net(loop)
+    tok, key = bytes(rng.randrange(256) for _ in range(64)), bytes(rng.randrange(256) for _ in range(32))
+    plan = {"frames": [], "cuts": lambda L: (), "hs_extra": None, "step": 0.01}
+
+    class Multi(acdev.ACModel):
+        def handle(self, fr):
+            return list(plan["frames"])
+    dev = landev.LanDevice(loop, net, Multi(), version=3, token=tok, key=key, seed=ctx.seed + 4)
+
+    def reply_filter(kind, tr, packets):
+        if kind == "hs" and plan["hs_extra"] is not None:
+            ss = dev.sess[tr.cid]
+            ss["ctr"] = (ss["ctr"] + 1) & 0xFFFF
+            return list(packets) + [landev.v3_enc_packet(ss["key"], landev.v2_wrap(plan["hs_extra"], 5), ss["ctr"])]
+        return packets
+    dev.reply_filter = reply_filter
+
+    def respond(tr, packets):
+        data = b"".join(packets)
+        prev, t = 0, loop.time()
+        for c in list(plan["cuts"](len(data), [len(x) for x in packets])) + [len(data)]:
+            if c <= prev:
+                continue
+            t += plan["step"]
+            loop.call_at(t, tr.feed, data[prev:c])
+            prev = c
+    dev.respond = respond
+
+    def cutfn(kind):
+        def f(L, sizes):
+            bounds = list(itertools.accumulate(sizes))[:-1]
+            if kind == "none" or L < 2:
+                return ()
+            if kind == "bytewise":
+                return tuple(range(1, L))
+            if kind == "boundaries":
+                return tuple(bounds)
+            if kind == "near":
+                return tuple(sorted({min(L - 1, max(1, b + d)) for b in bounds for d in (rng.choice([-1, 0, 1, 2, 6]),)}))
+            if kind == "first_then_rest":
+                return tuple(bounds[:1])
+            return tuple(sorted(rng.sample(range(1, L), min(L - 1, rng.randint(1, 4)))))
+        return f
+    kinds = ["none", "bytewise", "boundaries", "near", "first_then_rest", "random", "random"]
+    n = 0
+
+    async def go():
+        nonlocal n
+        for k in range(ctx.pick(140, 2500)):
+            l = LAN("10.0.0.1", 6444, 5)
+            hs_extra = bytes(rng.randrange(256) for _ in range(rng.choice([1, 20, 34]))) if k % 3 == 0 else None
+            plan["hs_extra"] = hs_extra
+            ck = kinds[k % len(kinds)]
+            plan["cuts"] = cutfn(ck if hs_extra is not None else "none")
+            plan["step"] = rng.choice([0.01, 0.01, 0.3]) if ck in ("none", "boundaries", "near", "first_then_rest") else 0.001   # the whole stream arrives well within the read timeout
+            sent, got, exc = [], [], None
+            try:
+                await l.authenticate(tok, key)
+                if hs_extra is not None:
+                    sent.append(hs_extra)
+                await asyncio.sleep(rng.choice([0, 1]))
+                plan["hs_extra"] = None
+                plan["cuts"] = cutfn(ck)
+                fs = [bytes(rng.randrange(256) for _ in range(rng.choice([1, 20, 34, 60]))) for _ in range(rng.randint(1, 3))]
+                plan["frames"] = fs
+                sent += fs
+                got += list(await l.send(b"\xaa\x01", retries=1))
+                await asyncio.sleep(3)                       # whatever was still on its way arrives and is queued
+                g = bytes(rng.randrange(256) for _ in range(20))
+                plan["frames"] = [g]
+                plan["cuts"] = cutfn("none")
+                sent.append(g)
+                got += list(await l.send(b"\xaa\x02", retries=1))
+            except Exception as e:  # noqa: BLE001 - code under test
+                exc = type(e).__name__
+            n += 1
+            if exc is not None or got != sent:
+                bad.append({"cuts": ck, "segment_spacing": plan["step"], "packet_behind_handshake_reply": hs_extra is not None, "exc": exc,
+                            "sent": [x.hex() for x in sent], "got": [bytes(x).hex() for x in got]})
+                if len(bad) > 30:
+                    return
+            if l._protocol:
+                l._disconnect()
+    vloop.run(loop, go())
+    return n, bad
+
+
 def judge(ctx, traces, canaries=True):
     cans = []
     if canaries:
@@ -275,6 +370,12 @@ def run(ctx: Ctx) -> int:
     for b in bad:
         ctx.violation("end-to-end: reply written in segments", "LAN.send did not return exactly the frame at the instant of the last byte", b)
     ctx.evaluations += n
+    n2, bad2 = multi_stream(ctx)
+    ctx.extra["multi_packet_streams_over_two_exchanges"] = n2
+    for b in bad2:
+        ctx.violation(f"multi-packet stream cut {b['cuts']}" + (" with a packet right behind the handshake reply" if b["packet_behind_handshake_reply"] else ""),
+                      "the frames handed out by the sends that follow are not the packets the appliance sent, each exactly once and in order", b)
+    ctx.evaluations += n2
     t = traces[len(traces) // 2]
     ctx.sample({"stream": concat(t["parts"]).hex()[:200], "cuts": t["cuts"][:20], "packets": sum(1 for p in t["parts"] if p["p"])})
     return ctx.finish(
